@@ -7,6 +7,7 @@ U == 65536
 AllGenOps == ClearOps \cup {"deep10"}
 AllFaults == {"underflow", "overflow", "noendchar", "badsubr", "drawfirst", "deep", "maskshort"}
 LenientFaults == {"pathunderflow"}
+DrawFirstOnly == {"drawfirst"}
 
 \* ---- integer programs (Unit = 1)
 \* (the large values let the pen leave the operand range: positions beyond 32000 / 32767 / 65535)
